@@ -57,13 +57,14 @@ func (s *grpcServer) GetActionResult(ctx context.Context,
 		return nil, errNilActionDigest
 	}
 
-	if s.mangleACKeys {
-		req.ActionDigest.Hash = cache.TransformActionCacheKey(req.ActionDigest.Hash, req.InstanceName, s.accessLogger)
-	}
-
+	// Validate the client's hash, not the mangled one (which is always well formed).
 	err := s.validateHash(req.ActionDigest.Hash, req.ActionDigest.SizeBytes, logPrefix)
 	if err != nil {
 		return nil, err
+	}
+
+	if s.mangleACKeys {
+		req.ActionDigest.Hash = cache.TransformActionCacheKey(req.ActionDigest.Hash, req.InstanceName, s.accessLogger)
 	}
 
 	// Clients provides hash and size of the Action, but not size of the ActionResult
@@ -233,13 +234,14 @@ func (s *grpcServer) UpdateActionResult(ctx context.Context,
 		return nil, errNilActionDigest
 	}
 
-	if s.mangleACKeys {
-		req.ActionDigest.Hash = cache.TransformActionCacheKey(req.ActionDigest.Hash, req.InstanceName, s.accessLogger)
-	}
-
+	// Validate the client's hash, not the mangled one (which is always well formed).
 	err := s.validateHash(req.ActionDigest.Hash, req.ActionDigest.SizeBytes, logPrefix)
 	if err != nil {
 		return nil, err
+	}
+
+	if s.mangleACKeys {
+		req.ActionDigest.Hash = cache.TransformActionCacheKey(req.ActionDigest.Hash, req.InstanceName, s.accessLogger)
 	}
 
 	// Validate the ActionResult's immediate fields, but don't check for dependent blobs.
